@@ -15,7 +15,7 @@ import (
 // Monitor: metamorphic relations, each tying two independently computed
 // library results together (no golden numbers).
 
-const c18Fam = gen.FAscii | gen.FNewline | gen.FWide | gen.FCombining | gen.FZero | gen.FEmoji | gen.FInvalid | gen.FCR | gen.FSGR
+const c18Fam = gen.FAscii | gen.FNewline | gen.FWide | gen.FCombining | gen.FZero | gen.FEmoji | gen.FInvalid | gen.FCR | gen.FSGR | gen.FEdge
 
 func init() {
 	register(&Prop{
